@@ -10,7 +10,8 @@ TECHNIQUE = ("heap-ownership typestate over the configuration parsers, value-set
 LEVEL_TEXT = ("static: decides on every path of the configuration parsers (a) no leak / double free / use after free, (b) that a line callback can "
               "only return SUCCESS or ENOMEM so one malformed line cannot abort the file, and that the file loop aborts only on a non-SUCCESS "
               "callback result, (c) that every copy into a fixed-size token buffer is bounded by that buffer, (d) that each resolv.conf directive "
-              "writes only its own field and unknown directives write nothing. Does not decide the metamorphic claim over all file contents or numeric ranges.")
+              "writes only its own field and unknown directives write nothing. Does not decide the metamorphic claim over all file contents or numeric ranges."
+              " Also decides (KEEP/SPLIT/EMPTY/NUM) replace-after-parse, splitter limits, empty-value handling and numeric validation of options, (LINELOOP) that line loops end only at EOF / out of memory / with a result, (OUTINIT) that structs filled through out-parameters are completely written.")
 LEVEL_NOTE = ("trusts clang CFG + extractor; callee return sets assume valid (non-NULL) pointer arguments; two 'cannot happen' returns and three "
               "semantic index bounds are frozen exemptions with reasons")
 DESIGN_REF = "DESIGN.md §6/C15"
